@@ -344,3 +344,47 @@ func parseValues(txt string) []uint64 {
 	}
 	return vals
 }
+
+// CheckWithValue checks the stack plus cond and, when sat, returns the model value of t.
+func (s *Solver) CheckWithValue(cond, t *Term) (Result, uint64) {
+	s.Push(cond)
+	r := s.Check()
+	var v uint64
+	if r == Sat {
+		vals, err := s.ValuesOfTerms([]*Term{t})
+		if err != nil || len(vals) != 1 {
+			s.LastErr = fmt.Sprint("get-value failed: ", err)
+			r = Unknown
+		} else {
+			v = vals[0]
+		}
+	}
+	s.Pop(1)
+	return r, v
+}
+
+// ValuesOfTerms evaluates arbitrary terms in the current model.
+func (s *Solver) ValuesOfTerms(ts []*Term) ([]uint64, error) {
+	var sb strings.Builder
+	sb.WriteString("(get-value (")
+	for _, t := range ts {
+		s.define(t)
+		sb.WriteString(ref(t))
+		sb.WriteString(" ")
+	}
+	sb.WriteString("))")
+	s.send(sb.String())
+	s.in.Flush()
+	txt, err := s.readSexp()
+	if err != nil {
+		return nil, err
+	}
+	if strings.HasPrefix(txt, "(error") {
+		return nil, fmt.Errorf("get-value: %s", txt)
+	}
+	vals := parseValues(txt)
+	if len(vals) != len(ts) {
+		return nil, fmt.Errorf("get-value: expected %d values, got %d in %q", len(ts), len(vals), txt)
+	}
+	return vals, nil
+}
